@@ -71,6 +71,17 @@ class Harness(cm.BaseB):
                 for ep in ("prep", "aspirate_well", "dispense_well", "aspirate", "transfer_e"):
                     yield {"ep": ep, "tip": coll, "invalid": True}
             yield {"ep": "aspirate_well", "tip": [{"$tip": "Any"}], "invalid": True}
+            # long collections: an invalid member at every index, also behind all eight distinct tips
+            bases = [list(range(1, 9)), [{"$tip": f"T{t}"} for t in range(8, 0, -1)], list(range(1, 9)) + [1, 2], [4, 4, 4, 4, 4, 4, 4, 4, 4]]
+            for base in bases:
+                for bad in (0, 9, {"$tip": "Any"}, 2.5):
+                    for pos in range(len(base) + 1):
+                        coll = list(base)
+                        coll.insert(pos, bad)
+                        for ep in ("prep", "aspirate_well", "dispense_well", "aspirate", "dispense", "transfer_e", "transfer_f"):
+                            yield {"ep": ep, "tip": coll, "invalid": True}
+                for ep in ("prep", "aspirate_well", "dispense", "transfer_e", "transfer_f"):
+                    yield {"ep": ep, "tip": base + base}
         elif k == "subsets":
             for m in range(1, 256):
                 members = [t for t in range(1, 9) if m >> (t - 1) & 1]
